@@ -48,11 +48,12 @@ class CsvGrid(Harness):
     name = 'grid'; property_id = 'C20'
     entry = [CSV + 'write_writer']
     classes = {}
-    def __init__(self, tier):
-        self.maxlen = 2 if tier == 'quick' else 3
+    def __init__(self, tier, maxcells=2, maxlen=2, name='grid'):
+        self.name = name
+        self.maxlen = maxlen
         self.doc = 'writer::csv::write_writer on a real workbook (2x2 area, each cell present or missing, texts of 0..%d symbolic characters from a delimiter-rich alphabet, trim on/off, wrap character none / double quote / apostrophe): an RFC 4180 parser with the same delimiter and quote recovers exactly the grid' % self.maxlen
-        self.bounds = {'area': '2 x 2', 'present_cells': 'every subset with at most 2 cells (thorough: 3)', 'text_chars': [0, self.maxlen], 'alphabet': [chr(c) for c in ALPHABET], 'do_trim': [False, True], 'wrap': ['', '"', "'"], 'encoding': 'UTF-8 only'}
-        self.maxcells = 2 if tier == 'quick' else 3
+        self.bounds = {'area': '2 x 2', 'present_cells': 'every subset of the 2x2 area with at most %d cells' % maxcells, 'text_chars': [0, self.maxlen], 'alphabet': [chr(c) for c in ALPHABET], 'do_trim': [False, True], 'wrap': ['', '"', "'"], 'encoding': 'UTF-8 only'}
+        self.maxcells = maxcells
     def setup(self, it): iomodel.install(it)
     def run(self, it, ctx, res):
         trim = ctx.branch(ctx.sym_bool('do_trim'))
@@ -135,5 +136,6 @@ def trimmed(ctx, cs):
     return cs
 
 def harnesses(tier):
-    return [CsvGrid(tier)]
+    if tier == 'quick': return [CsvGrid(tier)]
+    return [CsvGrid(tier), CsvGrid(tier, maxcells=3, maxlen=1, name='grid.3cells'), CsvGrid(tier, maxcells=1, maxlen=4, name='grid.long_text')]
 OPTIONS = {'want_smir': True}
